@@ -41,6 +41,15 @@ def similar_tokens():
                      {"op": closing, "token": [65], "amount": [1]}, {"op": closing, "token": [66], "amount": [1]}, {"op": closing, "token": [65], "amount": [1]}]
             out.append({"config": {"max": 2}, "term": {"next_receipt": 1}, "calls": calls,
                         "plan": {"exchanges": [dict(ok, receipt=r), dict(ok, receipt=r)], "default": ok}})
+    # closing one token fails at the terminal with every abort code there is - the other open token stays what it was: begin on it is
+    # refused, commit acts on its receipt number, and a third token still fits under the maximum
+    for code in range(256):
+        for closing in ("commit", "cancel"):
+            calls = [{"op": "begin", "token": [65], "amount": []}, {"op": "begin", "token": [66], "amount": []},
+                     {"op": closing, "token": [65], "amount": [1]}, {"op": "begin", "token": [66], "amount": []},
+                     {"op": "begin", "token": [67], "amount": []}, {"op": "commit", "token": [66], "amount": [1]}]
+            out.append({"config": {"max": 2 + code % 2}, "term": {"next_receipt": 11}, "calls": calls,
+                        "plan": {"exchanges": [ok, ok, {"o": "abort", "code": code}], "default": ok}})
     return out
 
 
